@@ -228,6 +228,10 @@ CHECKS = {
             dict(XT, kind="trace", name="rtc_cut", workload="rtc", n=(80, 1500), opts={"remote": 1, "cut": 1}, require={r'"ev":"fault"': 60}, nontrivial=[r'"ev":"fault"']),
             dict(XT, kind="trace", name="rtc_once", workload="rtc_once", n=(120, 2000), opts={"remote": 1}, require={r'"m":"take"': 100}, nontrivial=[r'"ev":"x_end","m":"take"']),
             dict(XT, kind="trace", name="rtc_once_local", workload="rtc_once", n=(80, 1000), opts={"remote": 0}, require={r'"m":"take"': 60}, nontrivial=[r'"ev":"x_end","m":"take"']),
+            # remote functions: RFnMut (read-modify-write closure, sequential calls, some abandoned), RFn (clones, concurrent), RFnOnce
+            dict(XT, kind="trace", name="rfn_remote", workload="rfn", n=(240, 3000), opts={"remote": 1}, require={r'"m":"fmut"': 300, r'"m":"fconst"': 200, r'"m":"fonce"': 50, r'"ev":"c_cancel"': 60},
+                 nontrivial=[r'"ev":"x_end"', r'"ev":"c_ret"']),
+            dict(XT, kind="trace", name="rfn_local", workload="rfn", n=(120, 1500), opts={"remote": 0}, require={r'"m":"fmut"': 150}, nontrivial=[r'"ev":"x_end"', r'"ev":"c_ret"']),
         ],
     },
     "C19": {
